@@ -62,3 +62,52 @@ PROPS = {
         "shards": {"quick": 1, "thorough": 1}, "timeout": {"quick": 120, "thorough": 120},
     },
 }
+
+# Texts for MANIFEST.json (bin/mkmanifest.py); a property is registered once it appears here.
+MANIFEST_TEXT = {
+    "C01": {
+        "technique": "runtime monitoring: structured fuzzing of the live agent over UDP with liveness / heartbeat-barrier / reply-count monitors, race detector on",
+        "text": "Executions of the real agent (in-process, -race) under IE-level mutation of every dispatched message type in five protocol states on four agent configurations; the oracle is process liveness (a dead child is attributed to the journalled datagram), an answered heartbeat barrier after every datagram (wedge = handler parked in repository code in the goroutine dump), at most one reply per datagram, and a valid establishment+deletion on the same and on another association afterwards. Held = no violating execution among the ones produced; nothing is claimed about datagrams not generated.",
+        "note": "Trusted: go-pfcp as decoder in the harness (distinct counting only), loopback FIFO delivery, the harness-owned datapath servers. A watchdog expiry without a parked handler is inconclusive.",
+    },
+    "C02": {
+        "technique": "runtime monitoring: history-based response checker at the PFCP socket (exact counting between heartbeat barriers)",
+        "text": "Random accepted/rejected request histories over several associations and sessions on both datapaths; every datagram received between two heartbeat barriers is decoded and compared field by field (type, sequence, header SEID, cause, Node ID, UP F-SEID, Created PDR count). Exploration: held on the histories produced.",
+        "note": "Assumes loopback in-order delivery; barrier sequence range 0x700000-0x7FFFFF reserved; rejections of known sessions are disambiguated by an in-package read of the session store at a quiescent point.",
+    },
+    "C03": {
+        "technique": "runtime monitoring: reference-model monitor comparing the harness BESS server's tables with the image of the control plane's rules after every accepted request; in-process crash-point simulation",
+        "text": "The real agent programs a harness-owned gRPC BESS server; after every accepted request the FAR/QER tables are compared exactly and the PDR table as a classifier on boundary-value packets with an independent reference model (own SDF interpreter, own port algebra). Crash points: the datapath server refuses the old client from the kill point on and a new incarnation starts against the populated server. Held on the explored histories inside the stated envelope.",
+        "note": "Envelope in evidence.assumptions; BESS semantics (upsert by key, priority order) are those of the harness server; killed incarnations are simulated in-process (no SIGKILL of a separate process).",
+    },
+    "C06": {
+        "technique": "runtime monitoring: lock-step reference model (bounded-exhaustive + random), porcupine linearizability checking of concurrent histories, conservation invariant under the pool's lock, race detector",
+        "text": "All alloc/release sequences up to a bound on /30 and /29 pools, random longer ones, and thousands of concurrent histories recorded at the API boundary and checked against a set-semantics reference pool with porcupine; end-to-end addresses from Created PDR. Race reports in pool code fail the check.",
+        "note": "porcupine v1.3.0 trusted; checker timeout is inconclusive; a concurrent history counts as non-trivial only if its operations overlapped in the recorded stamps.",
+    },
+    "C10": {
+        "technique": "runtime monitoring: stress of teardown interleavings (timing-randomised triggers, delayed datapath) with delete-exactly-once counting at the datapath server and goroutine-dump wedge detection",
+        "text": "Hundreds to thousands of scenarios per run make Association Release, read timeout, heartbeat failure and PFCPIface.Stop() coincide within milliseconds with requests in flight and a slow datapath; monitors: process liveness, Stop() returning (a parked teardown goroutine in the dump is the wedge witness), every session's rules deleted exactly once at the harness datapath, fresh association from the same address:port accepted, bystander association intact. Schedule exploration only: held on the interleavings produced (signatures counted in evidence).",
+        "note": "Timing is used to aim interleavings, never as a verdict; watchdog expiry without witness is inconclusive.",
+    },
+    "C17": {
+        "technique": "runtime monitoring of a pure function: algebraic set-equality oracle; thorough tier enumerates all 2^32 inputs",
+        "text": "Quick: boundary classes + 1.2M random ranges + range pairs; thorough: every (low, high) value for both strategies (exhaustive for the single-range claim), cover decided by alignment/contiguity of power-of-two blocks and by membership for non-prefix masks.",
+        "note": "0-0 means wildcard and inverted ranges denote the empty set (property text); thorough tier runs without -race (no goroutines involved).",
+    },
+    "C18": {
+        "technique": "runtime monitoring: schema-driven input generation with validity predicates and a metamorphic comment-placement oracle",
+        "text": "Tens of thousands (quick) to millions (thorough) of generated JSONC documents, each loaded comment-free and with comments/CRLF at random inter-token positions; returned configurations are checked against the documented defaults and validity predicates and against the stdlib decoding of the comment-free document; shipped samples must load.",
+        "note": "Only crash-freedom and validity are asserted for documents with comment markers inside strings, multi-line block comments and arbitrary bytes (property text).",
+    },
+    "C19": {
+        "technique": "runtime monitoring: HTTP handler driven directly (counting ResponseWriter) and through the real mux, datapath commands observed at the harness servers",
+        "text": "All methods x well-formed / malformed / unreadable bodies with boundary 64-bit values and every unit string on both datapaths; status, number of header writes and the slice-meter commands/cell are compared with big-integer arithmetic.",
+        "note": "Rates are judged only when non-zero and < 2^63 after conversion (property text); UP4 programs one cell with the larger direction.",
+    },
+    "C20": {
+        "technique": "runtime monitoring: reference-model monitor of the module graph after every netlink event (Python, real handlers, BESS-like recording client)",
+        "text": "Tens of thousands of kernel-consistent event histories delivered through the real netlink handlers of conf/route_control.py; after every event the module graph rebuilt from the BESS calls is compared with a model of kernel routes/neighbours (installed iff kernel has it and MAC known; one gate and one MAC-rewrite module per next hop, present iff used; no shared gates).",
+        "note": "pyroute2/pybess/scapy are stubbed (not installed here); no sanitizer applies to CPython; retry sleeps are patched out.",
+    },
+}
